@@ -62,7 +62,14 @@ struct MyListener : public Callback::Listener {
    as in applications that mix the callback classes into their own hierarchies: connect/disconnect must adjust the object pointers. */
 struct PadBase { long pad[3]; PadBase() { pad[0] = pad[1] = pad[2] = 0x5a5a5a5a; } };
 struct MyEmitterMI : PadBase, MyEmitter {};
-struct MyListenerMI : PadBase, MyListener {};
+/* Two more slots (10, 11) for the one-int signals: ONE non-virtual member function reached through two different base sub-objects of the
+   listener.  As pointers to members of the listener type they share the function word and differ only in the this-adjustment. */
+struct HandlerPart { void handle(int v); };
+struct PartA : HandlerPart {}; struct PartB : HandlerPart {};
+struct MyListenerMI : PadBase, MyListener, PartA, PartB {};
+typedef void (MyListenerMI::*IntSlotMI)(int);
+static IntSlotMI partSlot(int slot) { return slot == 10 ? static_cast<IntSlotMI>(static_cast<void (PartA::*)(int)>(&HandlerPart::handle)) : static_cast<IntSlotMI>(static_cast<void (PartB::*)(int)>(&HandlerPart::handle)); }
+static bool sameMember(const Callback::MemberFuncPtr& a, const Callback::MemberFuncPtr& b) { return memcmp(&a.ptr, &b.ptr, sizeof a.ptr) == 0; }   /* all 16 bytes: function word and adjustment */
 struct Conn { int e, sig, l, slot; uint64_t seq; bool live; };           // sig 0 = sigA(int), 1 = sigB(), 2 = sigC(int); slots 0,1 take int (sigA, sigC: one slot may serve both), slot 2 takes nothing (sigB)
 struct Emission { int e, sig; uint64_t startSeq; uint64_t cursorSeq; bool emitterDied; };
 struct Ctx {
@@ -76,7 +83,9 @@ static bool eligible(const Conn& c, const Emission& m) { return c.live && c.e ==
 
 static void doConnect(int e, int sig, int l, int slot) {
   if (!C.em[e] || !C.li[l]) return;
-  if (sig == 0) { if (slot == 0) Callback::connect(C.em[e], &MyEmitter::sigA, C.li[l], &MyListener::sa0); else Callback::connect(C.em[e], &MyEmitter::sigA, C.li[l], &MyListener::sa1); }
+  if (sig == 0 && slot >= 10) Callback::connect(C.em[e], &MyEmitter::sigA, C.li[l], partSlot(slot));
+  else if (sig == 2 && slot >= 10) Callback::connect(C.em[e], &MyEmitter::sigC, C.li[l], partSlot(slot));
+  else if (sig == 0) { if (slot == 0) Callback::connect(C.em[e], &MyEmitter::sigA, C.li[l], &MyListener::sa0); else Callback::connect(C.em[e], &MyEmitter::sigA, C.li[l], &MyListener::sa1); }
   else if (sig == 2) { if (slot == 0) Callback::connect(C.em[e], &MyEmitter::sigC, C.li[l], &MyListener::sa0); else Callback::connect(C.em[e], &MyEmitter::sigC, C.li[l], &MyListener::sa1); }
   else if (sig == 1) Callback::connect(C.em[e], &MyEmitter::sigB, C.li[l], &MyListener::sb0);
   else switch (sig) {
@@ -95,7 +104,9 @@ static void doDisconnect(int e, int sig, int l, int slot) {
   Conn* victim = 0; { Host h; for (auto& c : C.conns) if (c.live && c.e == e && c.sig == sig && c.l == l && c.slot == slot) { victim = &c; break; } }
   if (!victim) return;                      // only existing connections are disconnected (anything else is caller misuse)
   { Host h; for (auto& m : C.stack) if (m.e == e && m.sig == sig && victim->seq > m.cursorSeq && victim->seq < outermostStart(e, sig)) probe("disconnect_pending_slot"); victim->live = false; ++C.seq; }
-  if (sig == 0) { if (slot == 0) Callback::disconnect(C.em[e], &MyEmitter::sigA, C.li[l], &MyListener::sa0); else Callback::disconnect(C.em[e], &MyEmitter::sigA, C.li[l], &MyListener::sa1); }
+  if (sig == 0 && slot >= 10) Callback::disconnect(C.em[e], &MyEmitter::sigA, C.li[l], partSlot(slot));
+  else if (sig == 2 && slot >= 10) Callback::disconnect(C.em[e], &MyEmitter::sigC, C.li[l], partSlot(slot));
+  else if (sig == 0) { if (slot == 0) Callback::disconnect(C.em[e], &MyEmitter::sigA, C.li[l], &MyListener::sa0); else Callback::disconnect(C.em[e], &MyEmitter::sigA, C.li[l], &MyListener::sa1); }
   else if (sig == 2) { if (slot == 0) Callback::disconnect(C.em[e], &MyEmitter::sigC, C.li[l], &MyListener::sa0); else Callback::disconnect(C.em[e], &MyEmitter::sigC, C.li[l], &MyListener::sa1); }
   else if (sig == 1) Callback::disconnect(C.em[e], &MyEmitter::sigB, C.li[l], &MyListener::sb0);
   else switch (sig) {
@@ -132,7 +143,7 @@ static void doCreateEmitter(int e) { if (C.em[e]) return; C.em[e] = new MyEmitte
 
 static void perform(int code, int a0, int a1, int a2, int a3) {
   logEvent("op", code, a0 * 1000 + a1 * 100 + a2 * 10 + a3);
-  int e = a0 % NE, l = a1 % NL, sig = a2 % NS, slot = sig == 1 ? 2 : sig >= 3 ? sig : a3 % 2;
+  static const int intSlots[4] = {0, 1, 10, 11}; int e = a0 % NE, l = a1 % NL, sig = a2 % NS, slot = sig == 1 ? 2 : sig >= 3 ? sig : intSlots[a3 % 4];
   switch (code) {
   case O_CONNECT: doConnect(e, sig, l, slot); break;
   case O_DISCONNECT: doDisconnect(e, sig, l, slot); break;
@@ -149,6 +160,11 @@ static void slotEntered(const MyListener* self, int slot, int arg) {
   int lid = -1; for (int l = 0; l < NL; ++l) if (C.li[l] && (const MyListener*)C.li[l] == self) lid = l;
   if (lid < 0) fail("C12/slot_on_dead_or_wrong_object", "slot %d was invoked on an object that is not the Listener part of any live listener (a destroyed listener, or a wrong pointer adjustment in connect)", slot);
   harnessSlot(lid, slot, arg);
+}
+void HandlerPart::handle(int v) {
+  int lid = -1, slot = -1; for (int l = 0; l < NL; ++l) if (C.li[l]) { if ((HandlerPart*)(PartA*)C.li[l] == this) { lid = l; slot = 10; } else if ((HandlerPart*)(PartB*)C.li[l] == this) { lid = l; slot = 11; } }
+  if (lid < 0) fail("C12/slot_on_dead_or_wrong_object", "the shared handler was invoked on an object that is neither handler part of any live listener");
+  harnessSlot(lid, slot, v);
 }
 static void harnessSlot(int lid, int slot, int arg) {
   C.invocations++;
@@ -173,12 +189,12 @@ static void harnessSlot(int lid, int slot, int arg) {
   // re-entrant actions chosen on line
   int n = choose(K_HARNESS, 3);
   for (int i = 0; i < n; ++i) {
-    int v = choose(K_HARNESS2, 7 * NE * NL * NS * 2 * 2);
+    int v = choose(K_HARNESS2, 7 * NE * NL * NS * 4 * 2);
     if (!v) continue;
-    int code = 1 + v % 7; v /= 7; int a0 = v % NE; v /= NE; int a1 = v % NL; v /= NL; int a2 = v % NS; v /= NS; int a3 = v % 2; v /= 2;
+    int code = 1 + v % 7; v /= 7; int a0 = v % NE; v /= NE; int a1 = v % NL; v /= NL; int a2 = v % NS; v /= NS; int a3 = v % 4; v /= 4;
     if (v & 1) { a0 = C.stack.back().e; a2 = C.stack.back().sig; }          // bias: act on the signal being emitted
     if (code == O_DESTROY_L && (a3 & 1)) a1 = lid;                               // bias: destroy own listener
-    if (code == O_DISCONNECT && (a3 & 1)) { a1 = lid; a3 = slot; }                // bias: disconnect itself
+    if (code == O_DISCONNECT && (a3 & 1)) { a1 = lid; a3 = slot == 10 ? 2 : slot == 11 ? 3 : slot; }                // bias: disconnect itself
     probe("reentrant_action");
     perform(code, a0, a1, a2, a3);
   }
@@ -191,7 +207,7 @@ static Callback::MemberFuncPtr sigKey(int sig) {
 static Callback::MemberFuncPtr slotKey(int slot) {
   switch (slot) { case 0: return Callback::MemberFuncPtr(&MyListener::sa0); case 1: return Callback::MemberFuncPtr(&MyListener::sa1); case 2: return Callback::MemberFuncPtr(&MyListener::sb0);
     case 3: return Callback::MemberFuncPtr(&MyListener::s2); case 4: return Callback::MemberFuncPtr(&MyListener::s3); case 5: return Callback::MemberFuncPtr(&MyListener::s4); case 6: return Callback::MemberFuncPtr(&MyListener::s5);
-    case 7: return Callback::MemberFuncPtr(&MyListener::s6); case 8: return Callback::MemberFuncPtr(&MyListener::s7); default: return Callback::MemberFuncPtr(&MyListener::s8); } }
+    case 7: return Callback::MemberFuncPtr(&MyListener::s6); case 8: return Callback::MemberFuncPtr(&MyListener::s7); case 10: case 11: return Callback::MemberFuncPtr(partSlot(slot)); default: return Callback::MemberFuncPtr(&MyListener::s8); } }
 // both sides' bookkeeping must describe exactly the model's live connections
 static void checkBookkeeping() {
   for (int e = 0; e < NE; ++e) { MyEmitter* em = C.em[e]; if (!em) continue;
@@ -207,7 +223,7 @@ static void checkBookkeeping() {
           if (i->state != Callback::Emitter::Slot::connected) fail("C12/bookkeeping/stale_slot_state", "emitter %d signal %d entry %zu is in state %d outside any emission", e, sig, n, (int)i->state);
           if (n >= exp.size()) fail("C12/bookkeeping/extra_emitter_entry", "emitter %d signal %d lists %zu+ entries, %zu connections are live", e, sig, n + 1, exp.size());
           MyListener* ml = C.li[exp[n].l];
-          if (i->receiver == (Callback::Listener*)ml && !(i->slot == slotKey(exp[n].slot))) fail("C12/bookkeeping/emitter_entry_mismatch", "emitter %d signal %d entry %zu names another slot of listener %d than connection #%zu (slot %d)", e, sig, n, exp[n].l, n, exp[n].slot);
+          if (i->receiver == (Callback::Listener*)ml && !sameMember(i->slot, slotKey(exp[n].slot))) fail("C12/bookkeeping/emitter_entry_mismatch", "emitter %d signal %d entry %zu names another slot of listener %d than connection #%zu (slot %d)", e, sig, n, exp[n].l, n, exp[n].slot);
           if (i->receiver != (Callback::Listener*)ml) fail("C12/bookkeeping/emitter_entry_mismatch", "emitter %d signal %d entry %zu refers to another listener than connection #%zu (listener %d slot %d)", e, sig, n, n, exp[n].l, exp[n].slot);
         }
       }
@@ -225,7 +241,7 @@ static void checkBookkeeping() {
         std::vector<char> used(exp.size(), 0);
         for (List<Callback::Listener::Signal>::Iterator j = (*i).begin(), jend = (*i).end(); j != jend; ++j) {
           bool found = false;
-          for (size_t q = 0; q < exp.size() && !found; ++q) if (!used[q] && j->signal == sigKey(exp[q].sig) && j->slot == slotKey(exp[q].slot)) { used[q] = 1; found = true; }
+          for (size_t q = 0; q < exp.size() && !found; ++q) if (!used[q] && sameMember(j->signal, sigKey(exp[q].sig)) && sameMember(j->slot, slotKey(exp[q].slot))) { used[q] = 1; found = true; }
           if (!found) fail("C12/bookkeeping/listener_record_mismatch", "listener %d holds a (signal, slot) record for emitter %d that matches no live connection (the records of another connection were dropped instead)", l, e);
         }
       }
@@ -261,13 +277,13 @@ static void generate(RunSpec& s, int tier) {
   bool wide = r(3) == 0;      /* a third of the plans use mostly the signals with two to eight arguments */
   int n = 4 + (int)r(12);
   for (int i = 0; i < n; ++i) {
-    Op o; o.task = 0; o.a[0] = pickE(); o.a[1] = pickL(); o.a[2] = wide ? (r(3) ? 3 + (int64_t)r(7) : (int64_t)r(3)) : (int64_t)r(3); o.a[3] = (int64_t)r(2);
+    Op o; o.task = 0; o.a[0] = pickE(); o.a[1] = pickL(); o.a[2] = wide ? (r(3) ? 3 + (int64_t)r(7) : (int64_t)r(3)) : (int64_t)r(3); o.a[3] = r(3) ? (int64_t)r(2) : 2 + (int64_t)r(2);
     uint64_t k = r(100);
     if (i < 3) k = r(38);     // start with a few connections
     o.code = k < 38 ? O_CONNECT : k < 50 ? O_DISCONNECT : k < 84 ? O_EMIT : k < 90 ? O_DESTROY_L : k < 93 ? O_DESTROY_E : k < 97 ? O_CREATE_L : O_CREATE_E;
-    if (o.code == O_CONNECT && !gc.empty() && r(5) == 0) { GC g = gc[r(gc.size())]; o.a[0] = g.e; o.a[1] = g.l; o.a[2] = g.sig; o.a[3] = g.slot >= 2 ? 0 : g.slot; if ((g.sig == 0 || g.sig == 2) && r(2)) o.a[2] = 2 - g.sig; }   // duplicate connection, or the same slot on the emitter's other int signal
-    if ((o.code == O_DISCONNECT || o.code == O_EMIT) && !gc.empty() && r(6) != 0) { GC g = gc[r(gc.size())]; o.a[0] = g.e; o.a[2] = g.sig; if (o.code == O_DISCONNECT) { o.a[1] = g.l; o.a[3] = g.slot >= 2 ? 0 : g.slot; } }
-    if (o.code == O_CONNECT) { int sg = (int)(o.a[2] % NS); gc.push_back(GC{(int)o.a[0], sg, (int)o.a[1], sg == 1 ? 2 : sg >= 3 ? sg : (int)(o.a[3] % 2)}); }
+    if (o.code == O_CONNECT && !gc.empty() && r(5) == 0) { GC g = gc[r(gc.size())]; o.a[0] = g.e; o.a[1] = g.l; o.a[2] = g.sig; o.a[3] = g.slot == 10 ? 2 : g.slot == 11 ? 3 : g.slot >= 2 ? 0 : g.slot; if ((g.sig == 0 || g.sig == 2) && r(2)) o.a[2] = 2 - g.sig; }   // duplicate connection, or the same slot on the emitter's other int signal
+    if ((o.code == O_DISCONNECT || o.code == O_EMIT) && !gc.empty() && r(6) != 0) { GC g = gc[r(gc.size())]; o.a[0] = g.e; o.a[2] = g.sig; if (o.code == O_DISCONNECT) { o.a[1] = g.l; o.a[3] = g.slot == 10 ? 2 : g.slot == 11 ? 3 : g.slot >= 2 ? 0 : g.slot; } }
+    if (o.code == O_CONNECT) { static const int is[4] = {0, 1, 10, 11}; int sg = (int)(o.a[2] % NS); gc.push_back(GC{(int)o.a[0], sg, (int)o.a[1], sg == 1 ? 2 : sg >= 3 ? sg : is[o.a[3] % 4]}); }
     if (o.code == O_DESTROY_L) lAlive[o.a[1]] = false; if (o.code == O_DESTROY_E) eAlive[o.a[0]] = false; if (o.code == O_CREATE_L) { o.a[1] = (int64_t)r(NL); lAlive[o.a[1]] = true; } if (o.code == O_CREATE_E) { o.a[0] = (int64_t)r(NE); eAlive[o.a[0]] = true; }
     s.plan.push_back(o);
   }
